@@ -211,7 +211,7 @@ def int_to_chr(i):
     try:
         char = chr(n)
     except ValueError:
-        raise BibTeXError('%i passed to int.to.chr$', n)
+        raise BibTeXError('%i passed to int.to.chr$' % n)
     i.push(char)
 
 @builtin('int.to.str$')
